@@ -12,7 +12,7 @@ RULE = ("lanelets from generated centre polylines (2..8 vertices, straight / cur
         "graph with >=1 edge")
 ANCHORS = ["Lanelet.interpolate_position", "Lanelet.merge_lanelets", "Lanelet.find_lanelet_successors_in_range",
            "Lanelet.find_lanelet_predecessors_in_range", "Lanelet._compute_polyline_cumsum_dist"]
-REQUIRED = ["interp.at-vertex", "interp.zero", "interp.full-length", "interp.interior", "merge.pred-first",
+REQUIRED = ["interp.at-vertex", "interp.same-arc-length-after-moving-the-lanelet", "interp.zero", "interp.full-length", "interp.interior", "merge.pred-first",
             "merge.suc-first", "merge.nonuniform-spacing", "graph.cyclic", "graph.diamond-or-merge", "graph.branching",
             "range.equal-to-partial-length", "pred-search", "succ-search", "graph.curved-lanelets", "poly.int-dtype", "graph.neighbour-list-not-ascending", "merge.link-predecessor-list-only", "merge.link-successor-list-only", "merge.via-all_lanelets_by_merging"]
 EXHAUSTIVE = {"quick": "all directed graphs without self loops on 1..3 nodes (as successor relations) x start node x "
@@ -162,6 +162,27 @@ def run(ctx):
                 if abs(got[0] - e[0]) > t or abs(got[1] - e[1]) > t:
                     ctx.violation("C20/interpolate_position/%s-point-wrong/%s" % (nm, qk),
                                   "s=%r got %s expected %s" % (s, got, e), {"poly": poly, "s": s})
+
+        # "for every lanelet": also one that has answered before and was moved since (public translate_rotate) -- the answer
+        # for the SAME arc length moves with the lanelet
+        if i % 3 == 0:
+            qk, s = queries[(i // 3) % len(queries)]
+            try:
+                c0 = [np.array(x_, dtype=float) for x_ in la.interpolate_position(s)[:3]]
+                shift = np.array([7.0, -3.0])
+                la.translate_rotate(shift, 0.0)
+                c1 = [np.array(x_, dtype=float) for x_ in la.interpolate_position(s)[:3]]
+                ctx.feature("interp.same-arc-length-after-moving-the-lanelet")
+                ctx.evaluation()
+                t = tol(scale + L + 10.0)
+                for nm, a_, b_ in zip(("centre", "right", "left"), c0, c1):
+                    if np.abs(a_[:2] + shift - b_[:2]).max() > t:
+                        ctx.violation("C20/interpolate_position/%s-point-wrong/after-moving-the-lanelet" % nm,
+                                      "s=%r: %s before, %s after a translation by %s" % (s, a_, b_, shift), {"poly": poly, "s": s})
+                        break
+            except Exception as e:  # noqa
+                ctx.violation("C20/interpolate_position/raises-%s/after-moving-the-lanelet" % type(e).__name__, repr(e),
+                              {"poly": poly})
 
     # ------------------------------------------------------------------------------------------------- merge_lanelets
     n = ctx.pick(300, 80000)
